@@ -24,6 +24,8 @@ def run(tier="quick", seed=0, replay=None):
         return 1
     core.lean_stage(chk, "C02")
     from harness import cover
+    from harness import fingerprint
+    fingerprint.direct(chk, ['ixai/explainer/pfi.py', 'ixai/explainer/base.py', 'ixai/utils/tracker/multi_value.py', 'ixai/imputer/marginal_imputer.py', 'ixai/imputer/default_imputer.py'])
     _cv = cover.Cover(['ixai/explainer/pfi.py', 'ixai/explainer/base.py', 'ixai/utils/tracker/multi_value.py', 'ixai/imputer/marginal_imputer.py', 'ixai/imputer/default_imputer.py'])
     _cv.__enter__()
     quick = tier == "quick"
@@ -34,9 +36,10 @@ def run(tier="quick", seed=0, replay=None):
             chk.violation("first-call", f"IncrementalPFI {_expl.cfg_desc(cfg)}: the first observation did more than seed the storage "
                           f"(importance={first['est']['importance']}, model calls={first['model_calls']})",
                           _expl.replay_payload(rig, cfg, 0))
-    _expl.spec_equality_check(chk, "C02", "pfi", ["importance", "variance"], 70 if quick else 700, extra, "IncrementalPFI")
+    _expl.spec_equality_check(chk, "C02", "pfi", ["importance", "variance"], chk.count(70, 700), extra, "IncrementalPFI")
+    _expl.long_stream_probe(chk, "pfi", ["ixai/explainer/pfi.py", "ixai/explainer/base.py", "ixai/utils/tracker/multi_value.py"], "IncrementalPFI")
     # a feature the model ignores has importance zero
-    for i in range(15 if quick else 150):
+    for i in range(chk.count(15, 150)):
         cfg = next(iter(_expl.gen_configs(chk, "pfi", 1)))
         cfg = dict(cfg, d=chk.rng.randint(2, 4), dynamic=chk.rng.random() < 0.5, model_kind=chk.rng.choice(["scalar", "multi", "grow"]),
                    imputer_kind=chk.rng.choice(["joint", "product", "default"]), n_inner=chk.rng.randint(1, 3))
